@@ -487,5 +487,5 @@ func main() {
 		"explicit enumeration of every event history up to the depth bound (3 quick, 4 thorough; each event a free choice point) over three alphabets - topology refreshes (add, remove, address change, new host id on an old address, invalid peer row, duplicate row), status events for known and unknown addresses, control-connection loss and refresh failure - each with a query; after every event the system settles for 4s of virtual time under the default schedule and the ring indexes, pools, host states and offered hosts are compared with a reference model; one alphabet is additionally explored with schedule/timer deviations",
 		[]string{"5 scripted nodes that serve system.local / system.peers from the harness's cluster view and push events on the control connection; 1 connection per host; ReconnectInterval 0; events reach the driver only through the control connection",
 			"histories are run under the default schedule (T=0) except where stated: interleavings inside one event's processing are explored only in the dedicated scenario"},
-		defs, 80*time.Second, 12*time.Minute, nil)
+		defs, 80*time.Second, 25*time.Minute, nil)
 }
